@@ -210,6 +210,7 @@ def run_store(t, v, ops, lazy=False):
         out.append('%d.views=%s' % (k, ','.join(view_str(vt, vv) for vt, vv in views)))
         out.append('%d.snaps=%s' % (k, ','.join(snap_str(st, sn) for st, sn in snaps)))
         out.append('%d.hashes=%s' % (k, ''.join(hash_ok(vv) for vt, vv in views)))
+        out.append('%d.reads=%s' % (k, ''.join(reads_ok(vt, vv) for vt, vv in views)))
         out.append('%d.vbl=%s' % (k, ''.join(E(lambda: str(int(vv.value_byte_length() == len(vv.encode_bytes())))) for vt, vv in views)))
     if lazy:
         # snapshots first (their roots have never been computed), then the views
@@ -251,6 +252,15 @@ def refreshed(old, new):
         stack.append((a.get_left(), b.get_left()))
         stack.append((a.get_right(), b.get_right()))
     return bad
+
+
+def reads_ok(t, view):
+    """indexing and iteration of a held view against the content of its own encoding"""
+    try:
+        want = to_val(t, type(view).decode_bytes(view.encode_bytes()))
+        return '1' if to_val(t, view, 'index') == want and to_val(t, view, 'iter') == want else '0'
+    except Exception:
+        return 'E'
 
 
 def hash_ok(view):
